@@ -57,8 +57,9 @@ def run(ctx, res):
     for e in p.events:
         if e.kind == "call" and e.a == "mtbl_fixed_encode64":
             base, off = APE.split_off(e.b[0])
-            arg = strip(call_args(e.node)[1])
-            fld = arg["field"] if arg["k"] == "MemberExpr" and arg.get("rec") == "mtbl_metadata" else canon(arg)
+            # the field whose *value* is encoded (read directly, through a local, or out of a table of the fields)
+            mv = re.match(r"^%s->(\w+)$" % re.escape(mw.params[0]["name"]), strip_tags(APE.vstr(e.b[1])))
+            fld = mv.group(1) if mv and mv.group(1) in fields else strip_tags(APE.vstr(e.b[1]))
             if base != bufname:
                 res.bad("C10.R1", site(mw, "encode64(%s)" % fld), "trailer field written relative to %s, not the output buffer" % base, mw.loc(e.node))
                 continue
@@ -72,6 +73,10 @@ def run(ctx, res):
             base, off = APE.split_off(("s", e.a[1:]))
             if base == bufname and e.b == ("c", 0):
                 zero.add(off)
+        elif e.kind == "call" and e.a in ("memset", "__builtin_memset") and len(e.b) == 3:
+            base, off = APE.split_off(e.b[0])
+            if base == bufname and e.b[1] == ("c", 0) and e.b[2][0] == "c":
+                zero.update(range(off, off + e.b[2][1]))
     for r in rows:
         res.check(got.get(r["offset"]) == r["field"], "C10.R1", site(mw, "offset%d" % r["offset"]),
                   "metadata_write puts %s at offset %d" % (r["field"], r["offset"]),
@@ -116,6 +121,8 @@ def run(ctx, res):
                 for (a, b), v in p.cons.items():
                     if v == frozenset((EQ,)) and b.startswith("#"):
                         versions[int(b[1:])] = s.b
+                    elif b == "switch" and len(v) == 1 and re.match(r"^#?-?\d+$", str(list(v)[0])):
+                        versions[int(str(list(v)[0]).lstrip("#"))] = s.b
                 continue
             if not m:
                 res.bad("C10.R1", site(mr, fld), "field %s is not filled from a 64-bit little-endian decode (%s)" % (fld, APE.vstr(s.b)), mr.loc(s.node))
@@ -286,9 +293,18 @@ def run(ctx, res):
             if fld == "file_version":
                 good = len(st) == 1 and st[0].b == ("c", prog.enums["mtbl_file_version"]["MTBL_FORMAT_V2"])
             else:
-                rhs = strip(st[0].node["kids"][1]) if len(st) == 1 and st[0].node["k"] == "BinaryOperator" else None
-                good = rhs is not None and rhs["k"] == "MemberExpr" and ".".join(member_chain(rhs)) == pat.replace("\\", "") \
-                    and base_decl(rhs) == base_decl(st[0].node["kids"][0])
+                # value identity: what is stored is what the writer's own option field holds at that point of the path -
+                # the value last stored there on this path, or (options copied wholesale) a read of that field
+                good = False
+                if len(st) == 1:
+                    evs_ = [e for e in p.events if e.kind == "store"]
+                    i_ = evs_.index(st[0])
+                    prev = [e for e in evs_[:i_] if re.search(r"(->|\.)%s$" % pat, strip_tags(e.a))]
+                    own = st[0].a[:st[0].a.rindex("m." + fld)]          # "w->" : the object whose trailer is initialised
+                    if prev:
+                        good = st[0].b == prev[-1].b and strip_tags(prev[-1].a).startswith(own)
+                    else:
+                        good = strip_tags(APE.vstr(st[0].b)) == own + pat.replace("\\", "")
             res.check(good, "C10.R2", site(ini, fld), "%s stored once at init from the effective options" % fld,
                       "%s stored %d time(s) at init as %s" % (fld, len(st), [APE.vstr(x.b) for x in st]), ini.loc(ini.body))
 
